@@ -8,8 +8,9 @@ TECHNIQUE = ('exhaustive enumeration of all paragraphs of 1-2/3 (sub-menu 3/4) i
              'container prefix chain of depth <= 2/3, with every bystander block kind, x every maximum line length 1..120; '
              'four oracles per case (whitespace-normalised HTML equal, bystander lines untouched, no breakable space in an '
              'over-long line, reflow idempotent)')
-ASSUMPTIONS = ['breakable space = a space outside code spans, link destinations/titles, image descriptions and autolinks '
-               '(spaces inside those are never counted against the renderer)',
+ASSUMPTIONS = ['breakable space = a space outside code spans, inline link destinations/titles, image descriptions, autolinks and '
+               '<...> destinations (spaces inside those are never counted against the renderer); in link reference definitions the '
+               'spaces of label and title count as breakable (a definition may span lines there)',
                'words of the generated prose cannot be mistaken for block markers at the start of a line (the property\'s domain)']
 
 ITEMS = ['ab', 'abcdefghijklmnopqrstuvwxyz0123456789', '*em ph*', '**st rong**', '`co de`', '[li nk](/u "ti tle")',
@@ -23,6 +24,8 @@ BYSTANDERS = {
     'indented': ['    indented code with   spaces in it'],
     'html': ['<div class="x">', 'raw html that is long enough to wrap', '</div>'],
     'setext': ['setext heading words that may wrap', '==='],
+    'linkdef': ['[lab el]: /d "some title made of words"'],
+    'linkdef2': ["[x]: </long destination> 'title one two three four'"],
 }
 UNTOUCHED = ['atx', 'table', 'fence', 'indented', 'html']
 BOUNDS = {'quick': dict(items=3, sub_items=3, depth=2), 'thorough': dict(items=3, sub_items=4, depth=3)}
@@ -102,7 +105,7 @@ def ws_norm(h):
     return ''.join(p if p.startswith('<pre>') else re.sub(r'\s+', ' ', p) for p in parts)
 
 
-UNBREAKABLE = [re.compile(p) for p in (r'`[^`]*`', r'!\[[^\]]*\]\([^)]*\)', r'\]\([^)]*\)', r'\]\[[^\]]*\]', r'<[^ >]*>', r'^\[[^\]]*\]:')]
+UNBREAKABLE = [re.compile(p) for p in (r'`[^`]*`', r'!\[[^\]]*\]\([^)]*\)', r'\]\([^)]*\)', r'\]\[[^\]]*\]', r'<[^>]*>')]
 
 
 def breakable_space(line_after_prefix):
